@@ -13,8 +13,11 @@ Reader for the S-expression form of a program of the event calculus, written by
   emit ::= (emit EV exp*)
   stmt ::= emit | (log exp) | (create X rexp) | (set X F exp) | (setinner X F exp) | (destroy X) | (call F exp)
   rexp ::= (new TY (args exp*) (inner rexp)|(noinner))
-  exp  ::= (lit val) | (param) | (rfield X F) | (tr ID exp)
-  ty   ::= Int | UInt8 | Int64 | Bool | String | Address | (opt ty) | (arr ty)
+  exp  ::= (lit val) | (param) | (rfield X F) | (tr ID exp) | (cond ty exp exp exp) | (chain true|false exp)
+         | (coalesce exp exp) | (force exp) | (cast ty exp) | (castq ty exp)
+  ty   ::= Int | UInt8 | Int64 | Bool | String | Address | (opt ty) | (arr ty) | (ref ty)
+         (`(ref ty)` reads as `ty`: the payload of a reference is the exported referenced value; an
+          expression that evaluates to a reference is written as the literal of the referenced value)
   val  ::= (int TY N) | (bool true|false) | (str "…") | (addr N) | (nil) | (some val) | (arr val*)
 -/
 namespace Verif.Model.Lang3.Events
@@ -25,6 +28,8 @@ partial def readTy : SX → Option Ty
   | .atom "Int" => some (.int "Int") | .atom "UInt8" => some (.int "UInt8") | .atom "Int64" => some (.int "Int64")
   | .list [.atom "opt", t] => Ty.opt <$> readTy t
   | .list [.atom "arr", t] => Ty.arr <$> readTy t
+  -- a reference is exported as the value it refers to: in payloads `&T` is `T`
+  | .list [.atom "ref", t] => readTy t
   | _ => none
 
 partial def readVal : SX → Option Val
@@ -43,6 +48,13 @@ partial def readExp : SX → Option Exp
   | .list [.atom "param"] => some .param
   | .list [.atom "rfield", .atom x, .atom f] => Exp.rfield <$> x.toNat? <*> f.toNat?
   | .list [.atom "tr", .atom i, e] => Exp.tr <$> i.toNat? <*> readExp e
+  | .list [.atom "cond", t, c, a, b] => Exp.cond <$> readTy t <*> readExp c <*> readExp a <*> readExp b
+  | .list [.atom "chain", .atom "true", e] => Exp.chain true <$> readExp e
+  | .list [.atom "chain", .atom "false", e] => Exp.chain false <$> readExp e
+  | .list [.atom "coalesce", a, b] => Exp.coalesce <$> readExp a <*> readExp b
+  | .list [.atom "force", e] => Exp.force <$> readExp e
+  | .list [.atom "cast", t, e] => Exp.cast <$> readTy t <*> readExp e
+  | .list [.atom "castq", t, e] => Exp.castq <$> readTy t <*> readExp e
   | _ => none
 
 def readParam : SX → Option Param
